@@ -194,7 +194,9 @@ def gen_tree(rng, cfg=None):
             if not any(psw(p, i) or psw(i, p) for i in ignored):
                 ignored.append(p)
         if rng.random() < 0.3:
-            ignored.append(rng.choice(['foo', 'distfiles', 'no-such', 'a/none']))
+            extra_ign = rng.choice(['foo', 'distfiles', 'no-such', 'a/none'])
+            if not any(psw(mp, extra_ign) for mp in manifests):
+                ignored.append(extra_ign)
 
     def governing(p, rng):
         """Manifest files whose directory covers path p."""
